@@ -160,6 +160,50 @@ Theorem keyed_state_is_map_over_lsm_reopen_id :
 Proof. intros cfg Hcfg. exact (keyed_state_is_map_over_lsm cfg Hcfg (fun d => d) reopen_id_ok). Qed.
 Print Assumptions keyed_state_is_map_over_lsm_reopen_id.
 
+(* ---------------------------------------------------------------- keyed_state_restore_over_lsm_partial
+   Restore over the LSM model WITHOUT a hypothesis, by composing C07 with C08 through the specification map.
+   No single database model of this development has both reads under flush / compaction schedules (Model/Lsm.v has
+   no WAL) and checkpoint / WAL replay (Model/Ckpt.v has no prefix scan and no background schedule of its own tied to
+   C18). So the DKV here is the PAIR of both (Model/StateStoreCkpt.v), driven in lockstep: every DB.Put / DB.Delete of
+   the operator goes to both; scans are answered by the LSM side under the schedule [sc] (any F1 F2 C1 C2 before every
+   foreground action and between the halves of every scan); a redeploy from the checkpoint taken at a barrier
+     - reopens the durable side as C08 models it: Checkpoint capture (level set, WAL content, LatestSeqNum) of the
+       durable database of the barrier, then DB.Start: captured tables + replay of the WAL after LatestSeqNum
+       ([ckpt_reopen], replay_never_fails + checkpoint_exact_db of Proofs/C08_Ckpt.v), and
+     - gives the LSM side a new database loaded with the map it served at the barrier ([lsm_load]: every entry
+       through DB.Put, with its rotations; the schedule goes on).
+   Theorem, for EVERY cfg_ok option setting, schedule, sizes of the durable side, handler, watermark guard and history
+   (any number of checkpoints and redeploys, any schedule before, between and after them): the operator never panics;
+   the handler-visible trace is the specification machine's - after a redeploy the state handed over for a key is the
+   fold of the mutations up to the barrier of the restored checkpoint and of those since; the durable database is one
+   that can exist (C08 [reach]); and the map the LSM side serves equals, for every key, db_get of the durable database -
+   in particular right after a redeploy the reloaded map IS the content of the database C08's reopening yields.
+   GAP (why _partial): (1) the layout of the LSM side after a redeploy is a reload of the barrier map, not "tables of the
+   checkpoint + memtables rebuilt from the WAL" - C07 covers every reachable layout and the state store observes only
+   the contents, but that the real post-restore layout is one of them is not proved; (2) the durable side performs the
+   writes (with rotations), the Checkpoint capture and the reopening, but none of C08's background actions (flush swap,
+   compaction apply): C08 proves its invariant for them, not that db_get is unchanged by them (C18's subject), so they
+   cannot be scheduled here without that lemma; the running durable database also does not see the WAL rotation of
+   Checkpoint (the KV interface has no checkpoint call; db_get does not depend on it). The two models are tied only by
+   the map they hold. keyed_state_is_map_over_lsm (restore as a hypothesis on the LSM model alone) is kept above. *)
+From RV Require Import Model.StateStoreCkpt Proofs.C03_Restore.
+From RV Require Model.Ckpt Proofs.C08_Ckpt.
+
+Theorem keyed_state_restore_over_lsm_partial :
+  forall (cfg : Lsm.dbcfg) (Hcfg : C07_Refine.cfg_ok cfg)
+         (count : N) (accept : bytes -> Z -> bool) (h : handler) (steps : list step) (sc : schedule) (mem wm : N),
+    handler_ok h -> Forall step_ok steps ->
+    exists y, run (pair_kv cfg Hcfg) (key_group count) accept h
+                  (init_sys (pair_kv cfg Hcfg) (pair_init cfg Hcfg sc mem wm)) steps = Some y /\
+              sy_trace y = o_trace (o_run h o_init steps) /\
+              C08_Ckpt.reach (durable (sy_db y)) /\
+              forall k, Lsm.sm_get k (pair_contents (sy_db y)) = Ckpt.db_get (durable (sy_db y)) k.
+Proof.
+  intros cfg Hcfg count accept h steps sc mem wm.
+  exact (restore_over_lsm cfg Hcfg (key_group count) accept h steps sc mem wm).
+Qed.
+Print Assumptions keyed_state_restore_over_lsm_partial.
+
 (* ---------------------------------------------------------------- namespaces_contiguous
    Whatever responses the handler returned (guards as above), the state handed over for k - the grouping of the
    ascending flat map - contains every live entry exactly once in stored-key order, lists every namespace exactly
@@ -235,4 +279,19 @@ Example ex_run_faulty :
        [SBatch [([97], []); ([97; 98], [])]; SBatch [([97], [])]; SBatch [([97], [])]])
   = Some [ [([97], []); ([97; 98], [])];
            [([97], [([], [([], [])]); ([1], [([2], [3])])])] ].
+Proof. vm_compute. reflexivity. Qed.
+
+(* the pair computes: same history as ex_run_over_lsm (checkpoint, two batches, redeploy, one batch) with background
+   steps everywhere; the durable side is reopened by table load + WAL replay (20-byte memtables: it rotates), the LSM
+   side reloaded; the KeyStates after the redeploy are those of the barrier *)
+Definition ex_pair_kv : KV := pair_kv ex_lsm_cfg ex_lsm_cfg_ok.
+Example ex_run_over_pair :
+  option_map (fun y : sys ex_pair_kv => (map (fun rr => rq_states (fst rr)) (sy_trace y),
+                                         Ckpt.db_get (durable (sy_db y)) (enc_db (key_group 7) [97] [1] [2])))
+    (run ex_pair_kv (key_group 7) (fun _ _ => true) ex_handler (init_sys ex_pair_kv (pair_init ex_lsm_cfg ex_lsm_cfg_ok ex_sched 20 1000))
+       [SBatch [([97], []); ([97; 98], []); ([97], [])]; SCkpt 1; SBatch [([97], [])]; SBatch [([97], [])]; SRestore 1; SBatch [([97], [])]])
+  = Some ([ [([97], []); ([97; 98], [])];
+            [([97], [([], [([], [])]); ([1], [([2], [3])])])];
+            [([97], [([], [([], [])])])];
+            [([97], [([], [([], [])]); ([1], [([2], [3])])])] ], None).
 Proof. vm_compute. reflexivity. Qed.
